@@ -973,24 +973,29 @@ def _quiet():
 
 
 def chunk_exhaustive(args):
-    """Pool worker: all well-formed histories with the given prefix."""
-    prefix, depth, dedup, strict = args
+    """Pool worker: all well-formed histories below each of the given
+    prefixes (one driver run for the whole group)."""
+    prefixes, depth, dedup, strict = args
     _quiet()
     sess = Session(strict_errors=strict)
-    sess.ctl('reset')
-    for ev in ('connect 0', 'connect 1'):
-        sess.event(ev)
     evs = alphabet(2, 2, 2)
-    ok = True
-    for ev in prefix:
-        if not sess.auto.wf(ev):
-            ok = False
-            break
-        if not sess.event(ev):
-            ok = False
-            break
-    if ok:
-        explore(sess, evs, depth - len(prefix), {} if dedup else None)
+    for prefix in prefixes:
+        sess.sim = Sim(2)
+        sess.runner = Runner(sess.sim)
+        sess.auto = Automaton(strict)
+        sess.path = []
+        sess.value_owner = {}
+        sess.oracles_on = True
+        sess.ctl('reset')
+        for ev in ('connect 0', 'connect 1'):
+            sess.event(ev)
+        ok = True
+        for ev in prefix:
+            if not sess.auto.wf(ev) or not sess.event(ev):
+                ok = False
+                break
+        if ok:
+            explore(sess, evs, depth - len(prefix), {} if dedup else None)
     sess.compare()
     return (dict(sess.stats),
             [(f.sig, f.what, f.replay, f.found) for f in sess.findings[:50]])
@@ -1808,11 +1813,11 @@ def run(ck: Check):
 
     evs = alphabet(2, 2, 2)
     depth = 5 if thorough else 4
-    if thorough:
-        jobs = [([a, b], depth, False, True) for a in FIRST for b in evs]
-    else:
-        jobs = [([a], depth, False, True) for a in FIRST]
-    ck.rng.shuffle(jobs)
+    prefixes = [[a, b] for a in FIRST for b in evs]
+    ck.rng.shuffle(prefixes)
+    ngroups = 4 * ncpu if thorough else ncpu
+    jobs = [(prefixes[i::ngroups], depth, False, True)
+            for i in range(ngroups)]
     # state-space exploration: (first event | None, depth, clients, tids,
     # mailboxes); 2x2x2 saturates at depth 10 (1 244 states): complete
     if thorough:
@@ -1821,7 +1826,7 @@ def run(ck: Check):
         djobs += [(f, 6, 3, 3, 3) for f in alphabet(3, 3, 3)]
     else:
         djobs = [(None, 14, 2, 2, 2), (None, 6, 3, 2, 2)]
-    nrand = 100000 if thorough else 5000
+    nrand = 100000 if thorough else 4000
     per = 250
     rjobs = [(ck.rng.randrange(1 << 30), per, 30, False, True)
              for _ in range(nrand // per)]
